@@ -1018,3 +1018,56 @@ _cfc = _CheckFile(CF + 'FilesComparison.check_file', props=['C04'],
 REGISTRY[_cfc.ident] = _cfc
 _cfc.abstraction = ('the two files are stubs whose whole text is an opaque object; cutting it into lines yields a '
                     'description of how it was cut; check_strings is used through a stub that records what it is given')
+
+
+# ---------------------------------------------------------------------------
+# check_files (C04, the list-of-files entry point): every pair is compared with the same options, the failures add
+# up, a pair whose comparison raises counts as one failure and the remaining pairs are still compared.
+# ---------------------------------------------------------------------------
+
+def _cfs_view(it):
+    o = _perm_view(it)
+
+    def one(it2, self, actual_path, expected_path, **kw):
+        k = len(it2.ghost.setdefault('pairs', []))
+        raises = it2.path.choose([True, True]) == 1
+        n = it2.fresh(T.union(T.const(0), T.const(1)), 'failures_of_pair_%d' % k)
+        it2.ghost['pairs'].append((actual_path, expected_path, dict(kw), None if raises else n))
+        if raises:
+            raise PyExc('UnicodeDecodeError', 'pair %d' % k)
+        return (n, kw.get('msgs'))
+    o.methods['check_file'] = Builtin(one, 'check_file')
+    o.methods['info'] = Builtin(lambda it2, self, *a, **k: None, 'info')
+    return o
+
+
+def _cfs_entry(it, senv):
+    diffs = SObj('Diffs', {'__open__': True}, label='msgs')
+    it.spec_env['Diffs'] = Builtin(lambda it2: diffs)
+
+
+@specfn
+def every_pair_compared_failures_add_up(it, result, actual_paths, expected_paths, options):
+    pairs = it.ghost.get('pairs', [])
+    if len(pairs) != len(actual_paths):
+        return False
+    total = 0
+    for (a, e, kw, n), wa, we in zip(pairs, actual_paths, expected_paths):
+        if a is not wa or e is not we or not all(kw.get(k) is v for k, v in options.items()):
+            return False
+        total += 1 if n is None else n
+    return result[0] == total
+
+
+_CFSOPT = ('lstrip', 'rstrip', 'ignore_substrings', 'ignore_patterns', 'remove_lines', 'preprocess',
+           'max_permutation_cases')
+_two_paths = T.custom(lambda it, n: [it.fresh_str(n + '0'), it.fresh_str(n + '1')])
+contract(CF + 'FilesComparison.check_files', props=['C04'],
+         params=OrderedDict([('actual_paths', _two_paths), ('expected_paths', _two_paths)]
+                            + [(k, T.opaque) for k in _CFSOPT] + [('msgs', T.const(None)), ('encodings', T.const(None))]),
+         self_view=_cfs_view, on_entry=_cfs_entry,
+         spec_env=dict(ENV, every_pair_compared_failures_add_up=every_pair_compared_failures_add_up), result=T.none,
+         ensures=[('every-pair-is-compared-with-the-same-options-and-the-failures-add-up',
+                   'every_pair_compared_failures_add_up(result, actual_paths, expected_paths, dict(lstrip=lstrip, '
+                   'rstrip=rstrip, ignore_substrings=ignore_substrings, ignore_patterns=ignore_patterns, '
+                   'remove_lines=remove_lines, preprocess=preprocess, max_permutation_cases=max_permutation_cases))')])
